@@ -201,14 +201,14 @@ def body_name(tn, form, op, okey="", const=None):
     n = "f_%s_%s_%s" % (op, tn, form)
     if okey:
         n += "__" + okey.replace("=", "").replace(",", "_")
-    if const is not None:
-        n += "_c%d" % const[0]
+    if const is not None:                                         # the constant is part of the body's identity
+        n += "_c%s" % str(s64(const)).replace("-", "m")
     return n
 
 
 def body_text(tn, form, op, okey="", const=None):
     """C text of one body:  long f(void *p, long a, long *e).  okey: operand kinds of the positions that are not
-    'priv' ("A=call5,D=nest"); const = (index, value) for D=const."""
+    'priv' ("A=call5,D=nest"); const = the constant (a long) for D=const."""
     kind = TINFO[tn][4]
     T = "T_%s" % tn
     ok = ok_parse(okey)
@@ -218,7 +218,7 @@ def body_text(tn, form, op, okey="", const=None):
     decl, lv = lvalue(tn, form, ok.get("A", "priv"))
     dkind = ok.get("D", "priv")
     if dkind == "const":
-        aexpr = literal(const[1])
+        aexpr = literal(const)
     else:
         d, aexpr = kind_wrap(dkind, "D", "a")
         decl += d
@@ -329,18 +329,23 @@ def conv_macros(tn):
 
 
 def spec_of(o):
-    return (o["form"], o["op"], o["ok"], tuple(o["const"]) if o["const"] else None)
+    return (o["form"], o["op"], o["ok"], o["const"])
 
 
 def specs_of_programs(progs):
     """{type: ordered list of body specs the programs need}"""
-    res, seen = {}, set()
+    res, seen = {}, {}
     for p in progs:
         for th in p["threads"]:
             for o in th:
-                if o["form"] == "treiber" or (p["type"], o["fn"]) in seen:
+                if o["form"] == "treiber" or p.get("selftest"):
                     continue
-                seen.add((p["type"], o["fn"]))
+                key = (p["type"], o["fn"])
+                if key in seen:
+                    if seen[key] != spec_of(o):
+                        raise core.HarnessError("two different bodies share the name %s" % o["fn"])
+                    continue
+                seen[key] = spec_of(o)
                 res.setdefault(p["type"], []).append(spec_of(o))
     return res
 
@@ -557,7 +562,7 @@ def stub_call(operand, kind, size):
 def rewrite(asm):
     """Insert the stub calls.  -> (text, stats)"""
     out = []
-    stats = {"instrumented": 0, "kinds": {}, "unknown_mnemonics": set(), "skipped": 0, "split_cmpxchg": 0,
+    stats = {"instrumented": 0, "kinds": {}, "unknown_mnemonics": set(), "skipped": 0, "split_cmpxchg": 0, "got_loads": 0,
              "r11_uses": len(re.findall(r"%r11", asm))}
     pending = []
     for line in asm.split("\n"):
@@ -583,6 +588,12 @@ def rewrite(asm):
             continue
         if any("%r11" in o or MEM_RE.match(o).group("seg") for o, k, z in acc):
             stats["skipped"] += 1
+            out.append(line)
+            continue
+        if len(acc) == 1 and "@GOTPCREL(%rip)" in acc[0][0] and acc[0][1] == "r":
+            # load of a global offset table entry (address of an external function or object): a link-time constant,
+            # not memory of the program - no access, no scheduling point
+            stats["got_loads"] += 1
             out.append(line)
             continue
         base, _ = base_mnemonic(mnem, {"cmpxchg"})
@@ -1186,7 +1197,7 @@ def make_program(tn, form, op, cfg, variant, bound, partner=None, okey=""):
             if isconst:                                     # three constants per operation, dealt round robin
                 ci = (t + i) % 3
                 arg = pargs[ci][0]
-                const = [ci, arg]
+                const = s64(arg)
             th.append({"op": top, "fn": body_name(tn, tform, top, okey, const), "arg": arg, "exp": pexps[t][i],
                        "form": tform, "ok": okey, "const": const})
         threads.append(th)
@@ -1633,6 +1644,7 @@ def run(ctx):
             kinds[k] = kinds.get(k, 0) + v
     ctx.cover(bodies=len(opidx), rewriter_instrumented=sum(s["instrumented"] for s in rstats.values()),
               rewriter_kinds=kinds, rewriter_unmodelled_operands=sum(s["skipped"] for s in rstats.values()),
+              rewriter_got_loads_not_instrumented=sum(s["got_loads"] for s in rstats.values()),
               rewriter_unknown_mnemonics=unknown, rewriter_split_unlocked_cmpxchg=sum(s["split_cmpxchg"] for s in rstats.values()))
     if kinds.get("l", 0) == 0:
         raise core.HarnessError("vacuous: no locked read-modify-write instruction in any emitted body")
